@@ -103,8 +103,50 @@ def corrupt(rng, tp):
     return {"pattern": pattern, "style": style, "k": len(idx), "frac": frac, "kinds": sorted(kinds)}
 
 
+def long_pass(rng, thorough, k):
+    """long passes (well beyond 6 min) fed to the real time pipeline without a file"""
+    fmt = rng.choice(list(FMT))
+    num, den = timesgen.period(fmt)
+    six_min = (360000 * den) // num
+    n = rng.choice([2, 3, 5, 12]) * six_min + rng.randint(0, 500)
+    if not thorough and n > 14000:
+        n = rng.choice([4500, 9000])
+    n = min(n, FMT[fmt]["maxlines"] - 600, 30000)
+    n0 = rng.choice([1, 1, 2, 50, rng.randint(1, six_min // 2)])
+    nums = timesgen.line_numbers(rng, n, n0, rng.choice(["none", "small", "mixed"]))
+    nums = [x for x in nums if x < min(32000, FMT[fmt]["maxlines"])]
+    year = rng.choice([1999, 2000, 2003, 2004])
+    offs = timesgen.ideal_offsets(fmt, nums)
+    start = ydm_to_ms(year, rng.randint(1, 364), rng.randint(1, DAY - 1))
+    tp = TimePass(fmt, nums, start)
+    n = len(nums)
+    # corruption aimed at the lines that vote on the offset: a burst right after the first line, covering
+    # a chosen share of the first six minutes; or spread bursts elsewhere
+    where = rng.choice(["head", "head", "head-partial", "middle", "tail", "scattered"])
+    share = rng.choice([0.55, 0.8, 0.95, 1.0, 1.2]) if where == "head" else rng.choice([0.2, 0.45])
+    k = min(int(share * six_min), int(0.39 * (n - 1)))
+    if where in ("head", "head-partial"):
+        idx = np.arange(1, 1 + k)
+    elif where == "middle":
+        s0 = rng.randint(six_min, max(six_min + 1, n - k - 1))
+        idx = np.arange(s0, min(n, s0 + k))
+    elif where == "tail":
+        idx = np.arange(max(1, n - k), n)
+    else:
+        idx = np.array(sorted(rng.sample(range(1, n), k)))
+    mag = rng.choice([10001, 20000, 30000, 180000, 359000, 361000, 3600000, DAY, 40 * DAY])
+    sign = rng.choice([-1, 1])
+    fam = FMT[fmt]["family"]
+    for i in idx:
+        y, d, m = ms_to_ydm(int(tp.truth[i]) + sign * mag)
+        tp.year[i], tp.jday[i], tp.msec[i] = y, d, m
+        tp.corrupted[i] = True
+    return tp, {"kind": "long", "gaps": "-", "n0": n0, "pattern": where, "style": "offset%+d" % (sign * mag),
+                "k": int(len(idx)), "frac": len(idx) / float(n), "direct": True}
+
+
 def check_repair(ctx, tp, info, drv):
-    res = timesgen.real_times(ctx, tp, ctx.rng)
+    res = timesgen.real_times(ctx, tp, ctx.rng, direct=bool(info.get("direct")))
     payload = dict(tp.describe(), info=info, corrupted=np.nonzero(tp.corrupted)[0].tolist())
     truth = tp.truth.tolist()
     if res["kind"] != "times":
@@ -209,6 +251,11 @@ def run(ctx):
         info.update(corrupt(ctx.rng, tp))
         check_repair(ctx, tp, info, drv)
         if k < 3:
+            ctx.sample({"fmt": tp.fmt, "info": info, "nums": tp.nums[:6]})
+    for k in range(ctx.n(40, 400)):
+        tp, info = long_pass(ctx.rng, ctx.thorough, k)
+        check_repair(ctx, tp, info, drv)
+        if k < 2:
             ctx.sample({"fmt": tp.fmt, "info": info, "nums": tp.nums[:6]})
     for k in range(ctx.n(120, 1200)):
         tp, info = fallback_pass(ctx.rng, k)
